@@ -6,6 +6,8 @@ for every state produced by `step`, and checked on every generated instance (C10
 -/
 import JumanjiModel.Env.Sudoku.Lemmas
 import JumanjiModel.Env.Sudoku.Bounds
+import JumanjiModel.Env.Sudoku.DBLemmas
+import JumanjiModel.Gen.SudokuDB
 open Jm Jx Sudoku
 
 namespace Props.C04
@@ -99,11 +101,67 @@ namespace Props.C10
 /-- a state built the way the generators build it (any 9x9 board, mask = `get_action_mask(board)`)
 carries a correctly cached mask, so the hypotheses `CachedOK` of the C04/C05/C09/C11 theorems hold from
 reset on; the remaining advertised invariant (conflict-free puzzle, `Feasible`) is evaluated by the
-driver on the generated boards (all 11 000 shipped boards: tools/sudoku_all_boards.py) -/
+driver on the generated boards and proved for all 11 000 shipped boards below (`sudoku_db_all_ok`) -/
 theorem sudoku_generated_mask (b : Grid Int) (hs : Grid.shaped b 9 9 = true) :
     CachedOK { board := b, mask := maskOf b } := by
   show maskOf b = legalTable b
   exact Sudoku.maskOf_eq_legalTable b hs
+
+/-! The shipped puzzle databases (`data/1000_very_easy_puzzles.npy`, `data/10000_mixed_puzzles.npy`, the table
+`data.DATABASES`).  `harness/translators.py: gen_sudoku_db` turns them into the literals of Gen/SudokuDB*.lean (one
+`Nat` per board, layout in Env/Sudoku/DBCheck.lean); `Gen.SudokuDB.allBoards` is the list of the boards
+`DatabaseGenerator.__call__` can put into a state (`jnp.asarray(board, dtype=jnp.int32) - 1` of every entry).  The
+kernel runs the bit-parallel checker `Sudoku.DB.fastOK` on every entry (`decide +kernel`, one run per chunk of 250 boards,
+in the generated files); `Sudoku.DB.fastOK_sound` (proved for every code, Env/Sudoku/DBLemmas.lean) turns each run into
+the certificates below.  No hypotheses: these are statements about the shipped data. -/
+
+/-- every board of every shipped database carries the board certificates of the `sudoku.instance` op (`boardOK` = the
+same four expressions: `shape_9x9`, `digits_in_range`, `conflict_free`, `has_empty_cell`) -/
+theorem sudoku_db_all_ok : ∀ b ∈ Gen.SudokuDB.allBoards, boardOK b = true :=
+  Sudoku.DB.all_ok_of_chunks _ Gen.SudokuDB.chunks_ok
+
+/-- the same with the L2 predicates: every shipped puzzle is feasible (9x9, cells in −1..8, no digit twice in a row,
+column or box — the hypothesis of C06 / C01 at reset) and has an empty cell (the episode does not start finished) -/
+theorem sudoku_db_feasible : ∀ b ∈ Gen.SudokuDB.allBoards, Feasible b ∧ emptyCells b > 0 :=
+  fun b hb => (Sudoku.DB.boardOK_iff b).1 (sudoku_db_all_ok b hb)
+
+/-- the state `DatabaseGenerator` builds from any entry (`State(board, get_action_mask(board))`) carries all five
+certificates of the `sudoku.instance` op (the fifth, `mask_is_legal_table`, by `sudoku_generated_mask`) -/
+theorem sudoku_db_states_ok : ∀ b ∈ Gen.SudokuDB.allBoards,
+    instanceOK { board := b, mask := maskOf b } = true := by
+  intro b hb
+  have h := sudoku_db_all_ok b hb
+  have hs : Grid.shaped b 9 9 = true := ((Sudoku.DB.boardOK_iff b).1 h).1.1
+  unfold instanceOK
+  rw [Bool.and_eq_true, decide_eq_true_eq]
+  exact ⟨h, sudoku_generated_mask b hs⟩
+
+/-- `allBoards` is all of both databases: the chunks are those listed per database, and the sizes are the documented
+ones (1000 very-easy puzzles, 10000 mixed puzzles; 11000 boards) -/
+theorem sudoku_db_complete :
+    Gen.SudokuDB.chunks = Gen.SudokuDB.databases.flatMap (fun d => d.2.2.2) ∧
+    Gen.SudokuDB.databases.map (fun d => (d.1, d.2.1, d.2.2.1, d.2.2.2.flatten.length)) =
+      [("very-easy", "1000_very_easy_puzzles.npy", 1000, 1000), ("mixed", "10000_mixed_puzzles.npy", 10000, 10000)] ∧
+    Gen.SudokuDB.allBoards.length = 11000 := by
+  refine ⟨rfl, by decide +kernel, ?_⟩
+  rw [Gen.SudokuDB.allBoards, List.length_map]
+  decide +kernel
+
+/-- the board of `DummyGenerator` (`constants.INITIAL_BOARD_SAMPLE`, translated with the databases) is the
+`sampleBoard` of the examples, and it carries the same certificates -/
+theorem sudoku_toy_ok : Sudoku.DB.decodeBoard Gen.SudokuDB.toy = sampleBoard ∧ boardOK sampleBoard = true := by
+  have h : Sudoku.DB.decodeBoard Gen.SudokuDB.toy = sampleBoard := by decide +kernel
+  exact ⟨h, h ▸ Sudoku.DB.fastOK_sound _ Gen.SudokuDB.toy_ok⟩
+
+/-- the checker is not vacuous: it rejects a board with a digit twice in a row / column / box, a value 10, and a full
+board (first row of the first very-easy puzzle `4 9 6 _ 3 5 8 7 1` with the 4 repeated, etc.) -/
+example : Sudoku.DB.fastOK 0x040906040305080701_000000000000000000_000000000000000000_000000000000000000_000000000000000000_000000000000000000_000000000000000000_000000000000000000_000000000000000000 = false ∧
+    Sudoku.DB.fastOK 0x040000000000000000_000000000000000000_000000000000000000_000000000000000000_000000000000000000_000000000000000000_040000000000000000_000000000000000000_000000000000000000 = false ∧
+    Sudoku.DB.fastOK 0x040000000000000000_000000000000000000_000004000000000000_000000000000000000_000000000000000000_000000000000000000_000000000000000000_000000000000000000_000000000000000000 = false ∧
+    Sudoku.DB.fastOK 0x0a0000000000000000_000000000000000000_000000000000000000_000000000000000000_000000000000000000_000000000000000000_000000000000000000_000000000000000000_000000000000000000 = false ∧
+    Sudoku.DB.fastOK 0x010203040506070809_040506070809010203_070809010203040506_020304050607080901_050607080901020304_080901020304050607_030405060708090102_060708090102030405_090102030405060708 = false ∧
+    Sudoku.DB.fastOK 0x000203040506070809_040506070809010203_070809010203040506_020304050607080901_050607080901020304_080901020304050607_030405060708090102_060708090102030405_090102030405060708 = true := by
+  decide +kernel
 end Props.C10
 
 namespace Props.C11
